@@ -136,6 +136,11 @@ func (server *Server) pop(conn *redis.Conn, key string, count int, isLPop bool) 
 		return redis.NewNilMessage(), nil
 	}
 
+	// A list that became empty no longer exists.
+	if list.Len() == 0 {
+		db.RemoveRecord(key)
+	}
+
 	if count == 1 {
 		if len(elems) < 1 {
 			return redis.NewNilMessage(), nil
@@ -201,6 +206,11 @@ func (server *Server) LRange(conn *redis.Conn, key string, start int, stop int) 
 		return nil, err
 	}
 
+	// Reading a missing key must not create it.
+	if !db.HasRecord(key) {
+		return redis.NewArrayMessage(), nil
+	}
+
 	_, list, err := db.GetListRecord(key)
 	if err != nil {
 		return nil, err
@@ -222,6 +232,10 @@ func (server *Server) LIndex(conn *redis.Conn, key string, idx int) (*redis.Mess
 		return nil, err
 	}
 
+	if !db.HasRecord(key) {
+		return redis.NewNilMessage(), nil
+	}
+
 	_, list, err := db.GetListRecord(key)
 	if err != nil {
 		return nil, err
@@ -239,6 +253,10 @@ func (server *Server) LLen(conn *redis.Conn, key string) (*redis.Message, error)
 	db, err := server.GetDatabase(conn.Database())
 	if err != nil {
 		return nil, err
+	}
+
+	if !db.HasRecord(key) {
+		return redis.NewIntegerMessage(0), nil
 	}
 
 	_, list, err := db.GetListRecord(key)
